@@ -451,7 +451,18 @@ def rule_cache_invalidation(ctx):
                     continue
                 c = strip(ifs['inner'][0])
                 if not (c.get('kind') == 'BinaryOperator' and c.get('opcode') in ('!=', '<', '>', '<=', '>=', '==')):
-                    continue
+                    # the comparison may be one operand of a larger condition (a || b): take the first comparison whose two
+                    # sides are copied onto each other in the block
+                    cands = [x for x in walk(c) if x.get('kind') == 'BinaryOperator' and x.get('opcode') in ('!=', '<', '>', '<=', '>=', '==')]
+                    pick = None
+                    for x in cands:
+                        a_, b_ = render(x['inner'][0]), render(x['inner'][1])
+                        if any(cfront.is_assign(e) and e.get('opcode') == '=' and {render(e['inner'][0]), render(e['inner'][1])} == {a_, b_} for e in walk(ifs['inner'][1])):
+                            pick = x
+                            break
+                    if pick is None:
+                        continue
+                    c = pick
                 raises = [e for e in walk(ifs['inner'][1]) if cfront.is_assign(e) and (_canon_member(e['inner'][0]) or '') in consumers and render(e['inner'][1]) == '1']
                 if not raises:
                     continue
